@@ -135,7 +135,23 @@ func checkLeak(c packcase.Case) error {
 		if e.Typeflag != tar.TypeSymlink {
 			continue
 		}
-		// (c) out-of-tree links are never stored as links
+		// (c) out-of-tree links are never stored as links - whatever their origin
+		// (a link of the tree, or one found inside a dereferenced directory)
+		if path.IsAbs(e.Linkname) && !fsx.Inside(run.Src, e.Linkname) {
+			allowed := false
+			for _, a := range c.Opts.Allow {
+				ap := fsx.Subst(a, run.Vars)
+				if !filepath.IsAbs(ap) {
+					ap = filepath.Join(run.Src, ap)
+				}
+				if fsx.Inside(ap, filepath.Clean(e.Linkname)) {
+					allowed = true
+				}
+			}
+			if !allowed {
+				return fmt.Errorf("link entry %q is stored with the absolute out-of-tree target %q", name, e.Linkname)
+			}
+		}
 		for _, l := range links {
 			if l.Path == name && l.Outside && !l.Allowed {
 				return fmt.Errorf("link %q -> %q leaves the source directory (%s) but was stored as a link", name, e.Linkname, l.Lexical)
